@@ -210,7 +210,8 @@ class Mixed:
                                                   "vals": [codes(x) for x in (ev.get("vals") or []) if x != ""]}])
 
     def op_settags(self, h):
-        d, c = self.r.choice(["=", ":", " "]), self.r.choice(["#", ";"])
+        # (a blank delimiter tag makes the written text ambiguous for values with blanks or quotes: C07's own universe handles it)
+        d, c = self.r.choice(["=", ":"]), self.r.choice(["#", ";"])
         self.add("settags %d %s %s" % (h, hx(d), hx(c)), lambda ev, root, h=h, d=d, c=c: [{"e": "settag", "h": h, "which": "d", "tag": ord(d)}, {"e": "settag", "h": h, "which": "c", "tag": ord(c)}])
 
     def errloc(self):
@@ -248,8 +249,14 @@ class Mixed:
                  lambda ev, root, h=h, f=f: [{"e": "write", "h": h, "path": codes(f), "rc": ev["rc"]}])
         self.files.add(f)
 
+    def op_newoptonly(self, h):
+        """an option object that is used as a plain object (sets, merge base, write): it carries NO delimiter / comment tag"""
+        self.add("newopt %d x" % h, lambda ev, root, h=h: [{"e": "newopt", "h": h if ev["rc"] == "ECONF_SUCCESS" else 0, "items": [], "rc": ev["rc"]}])
+        self.live.add(h)
+
     def op_dump(self, h):
         self.add("dumpx %d" % h, lambda ev, root, h=h: [{"e": "dump", "h": h, "isnull": ev["st"] is None, "st": dump_st(ev, self.comments) or {"groups": [], "ents": []},
+                                                          "tags": [ev["st"]["dtag"], ev["st"]["ctag"]] if ev["st"] else [0, 0],
                                                           "cmp_comments": self.comments,
                                                           "path": codes(self.rel(ev["st"]["path"], root)) if ev["st"] else []}])
 
@@ -300,6 +307,8 @@ class Mixed:
                 self.op_readconfig(free[0])
             elif x < 0.38 and free and allow("new"):
                 self.op_new(free[0])
+            elif x < 0.40 and free and allow("newoptonly"):
+                self.op_newoptonly(free[0])
             elif x < 0.58 and live and allow("set"):
                 self.op_set(self.r.choice(live))
             elif x < 0.70 and live and allow("get"):
@@ -339,7 +348,7 @@ class Mixed:
 
 OPS = {   # every property exercises the root specification with the calls IT talks about (no misattributed alarms)
     "C11": {"read", "new", "set", "get", "typed", "listings"},
-    "C10": {"read", "new", "set", "get"},
+    "C10": {"read", "new", "newoptonly", "set", "get", "merge", "write", "tags", "listings", "ext"},
     "C07": {"read", "new", "set", "get", "write", "tags", "typed"},
     "C03": {"read", "new", "set", "get", "merge"},
     "C01": {"readdirs", "readconfig", "confdirs", "get"},
